@@ -118,6 +118,7 @@ def d2(ctx, F):
 
 def run(ctx):
     F = ctx.facts("quick")
+    K.socket_pass_through(ctx, F, "C02.D5")
     # "payload and headers intact, exactly once" also depends on the frame codec the router's peers are written through: several frames
     # queued for one peer share a write buffer, so the length prefix must be right at any buffer offset (C05.D2) and both directions
     # must agree on the limit (C05.D3)
